@@ -6,5 +6,7 @@ CONSTANTS
   Miuxs = {0}
   Rws = {0, 1}
   Sym = {0}
+  MemSapCodes = {96}
+  FrmrSapCodes = {0}
   Alpha = {0}
 CHECK_DEADLOCK FALSE
